@@ -46,247 +46,260 @@ func instrument(bdir string, repl map[string]string) error {
 
 func init() {
 	specs["C07"] = &Spec{
-		LevelText: "Every header input in the stated finite families (all line sequences to depth 4/5 over a 40-kind line alphabet incl. every malformed variant, all byte strings to length 6/7 over 8 symbols in every line slot, every one-byte edit of valid headers, all well-formed headers of a shape family incl. >4 KiB lines) is parsed by the real format.Parse in 4 delivery modes and compared two-sidedly with an independent strict recogniser; inside these bounds no non-canonical header is accepted and no canonical one refused. Exploration is the right level: the property quantifies over inputs of a sequential parser.",
-		LevelNote: "trusts the reference recogniser refage.ParseHeader (written from the spec, cross-checked against the CCTV vectors) and that inputs outside the alphabets follow the same parser branches",
-		Technique: "bounded-exhaustive input enumeration on the implementation, differential against an independent reference recogniser",
-		Title: "Header encoding is canonical: parsing and marshalling are inverse",
-		Level: "exploration",
-		Rule: "bounded-exhaustive enumeration of header inputs (all line sequences up to a depth over a line alphabet covering every malformed variant, all short byte strings over an 8-symbol alphabet in each line slot, every one-byte edit of valid headers) and of all well-formed headers in a shape family; each input is judged two-sidedly against an independent strict recogniser/serialiser (refage): accepted => Marshal+payload == input and reference accepts with equal fields; rejected => nil header, nil reader and reference rejects. distinct_nontrivial counts distinct accepted inputs (line sequences, byte strings), distinct edited inputs and distinct well-formed headers.",
+		LevelText:   "Every header input in the stated finite families (all line sequences to depth 4/5 over a 40-kind line alphabet incl. every malformed variant, all byte strings to length 6/7 over 8 symbols in every line slot, every one-byte edit of valid headers, all well-formed headers of a shape family incl. >4 KiB lines) is parsed by the real format.Parse in 4 delivery modes and compared two-sidedly with an independent strict recogniser; inside these bounds no non-canonical header is accepted and no canonical one refused. Exploration is the right level: the property quantifies over inputs of a sequential parser.",
+		LevelNote:   "trusts the reference recogniser refage.ParseHeader (written from the spec, cross-checked against the CCTV vectors) and that inputs outside the alphabets follow the same parser branches",
+		Technique:   "bounded-exhaustive input enumeration on the implementation, differential against an independent reference recogniser",
+		Title:       "Header encoding is canonical: parsing and marshalling are inverse",
+		Level:       "exploration",
+		Rule:        "bounded-exhaustive enumeration of header inputs (all line sequences up to a depth over a line alphabet covering every malformed variant, all short byte strings over an 8-symbol alphabet in each line slot, every one-byte edit of valid headers) and of all well-formed headers in a shape family; each input is judged two-sidedly against an independent strict recogniser/serialiser (refage): accepted => Marshal+payload == input and reference accepts with equal fields; rejected => nil header, nil reader and reference rejects. distinct_nontrivial counts distinct accepted inputs (line sequences, byte strings), distinct edited inputs and distinct well-formed headers.",
 		Assumptions: append([]string{"the reference recogniser refage.ParseHeader is a faithful reading of the age v1 header grammar (validated against the CCTV vectors in C05)"}, commonAssume...),
-		Runs: []Run{{Pkg: hp + "c07", Variant: "real"}},
+		Runs:        []Run{{Pkg: hp + "c07", Variant: "real"}},
 	}
 }
 
 func init() {
 	specs["C01"] = &Spec{
-		LevelText: "All recipient lists up to length 3/4 over six recipient kinds (+passphrase alone) x sizes at every 64 KiB seam (real build) and every size 0..3C+1 plus 256-chunk carries (scaled build of the same sources) x armor x write segmentations x identity lists with the match at every position are encrypted and decrypted by the real code; each result is also opened by the independent reference decoder. Exploration over configurations and inputs.",
-		LevelNote: "trusts the reference decoder and the fixed key fixtures; scaled build differs only in ChunkSize",
-		Technique: "bounded-exhaustive configuration/input enumeration on the implementation with an independent reference decoder as second oracle",
-		Title: "Every listed recipient decrypts to the exact plaintext",
-		Level: "exploration",
-		Rule: "bounded-exhaustive enumeration of (recipient list, plaintext length, armor, write segmentation, identity list with the matching identity at every position among non-matching identities of every type) on the real build (lengths around multiples of 64 KiB) and on a scaled build of the same sources (ChunkSize=16: every length 0..3C+1 and lengths crossing the 256-chunk counter carry); oracle: Decrypt succeeds, exact bytes, clean EOF, identities consulted in order and none after the first match, and the independent reference decoder opens the same file. distinct_nontrivial counts distinct (list,size,armor,segmentation) files.",
+		LevelText:   "All recipient lists up to length 3/4 over six recipient kinds (+passphrase alone) x sizes at every 64 KiB seam (real build) and every size 0..3C+1 plus 256-chunk carries (scaled build of the same sources) x armor x write segmentations x identity lists with the match at every position are encrypted and decrypted by the real code; each result is also opened by the independent reference decoder. Exploration over configurations and inputs.",
+		LevelNote:   "trusts the reference decoder and the fixed key fixtures; scaled build differs only in ChunkSize",
+		Technique:   "bounded-exhaustive configuration/input enumeration on the implementation with an independent reference decoder as second oracle",
+		Title:       "Every listed recipient decrypts to the exact plaintext",
+		Level:       "exploration",
+		Rule:        "bounded-exhaustive enumeration of (recipient list, plaintext length, armor, write segmentation, identity list with the matching identity at every position among non-matching identities of every type) on the real build (lengths around multiples of 64 KiB) and on a scaled build of the same sources (ChunkSize=16: every length 0..3C+1 and lengths crossing the 256-chunk counter carry); oracle: Decrypt succeeds, exact bytes, clean EOF, identities consulted in order and none after the first match, and the independent reference decoder opens the same file. distinct_nontrivial counts distinct (list,size,armor,segmentation) files.",
 		Assumptions: commonAssume,
-		Runs: []Run{{Pkg: hp + "c01", Variant: "real"}, {Pkg: hp + "c01", Variant: "scaled16", Optional: true}},
+		Runs:        []Run{{Pkg: hp + "c01", Variant: "real"}, {Pkg: hp + "c01", Variant: "scaled16", Optional: true}},
 	}
 }
 
 func init() {
 	specs["C02"] = &Spec{
-		LevelText: "The STREAM acceptance automaton (reference model) and the real stream.Reader are run on every chunk sequence up to depth 4/5 (scaled) and 3 (real size) over a 31-variant chunk alphabet x 3 trailers and must agree on verdict, released bytes, stickiness and canonical chunking; every bit flip, truncation length and trailing extension of real files (exhaustive on small/scaled files, all seams +-17 at real size) goes through age.Decrypt. Model checking with full model-trace replay on the implementation.",
-		LevelNote: "trusts the automaton as a reading of the STREAM spec (validated on the CCTV stream_* vectors in C05) and the ChunkSize-only difference of the scaled build",
-		Technique: "explicit-state model (STREAM automaton) + exhaustive depth-bounded sequence enumeration replayed on the implementation; exhaustive bit-flip/truncation enumeration",
-		Title: "Tampered, truncated or reordered payload is never accepted",
-		Level: "model_checking",
-		Rule: "model = STREAM acceptance automaton over byte streams (refage.OpenStream: state = chunk counter x final-seen x failed). Every chunk sequence up to the depth bound over the chunk-variant alphabet is generated, judged by the automaton and executed on the real stream.Reader (traces_validated_against_impl = sequences x read styles): verdict, released bytes, stickiness and canonical-chunking must agree. Every single-bit flip / truncation length / trailing extension of real files is executed through age.Decrypt. Scaled build (ChunkSize=16, same sources) for depth and exhaustive offsets, real build for the 64 KiB seams. states = distinct automaton end states observed (chunks opened x verdict x reason).",
+		LevelText:   "The STREAM acceptance automaton (reference model) and the real stream.Reader are run on every chunk sequence up to depth 4/5 (scaled) and 3 (real size) over a 31-variant chunk alphabet x 3 trailers and must agree on verdict, released bytes, stickiness and canonical chunking; every bit flip, truncation length and trailing extension of real files (exhaustive on small/scaled files, all seams +-17 at real size) goes through age.Decrypt. Model checking with full model-trace replay on the implementation.",
+		LevelNote:   "trusts the automaton as a reading of the STREAM spec (validated on the CCTV stream_* vectors in C05) and the ChunkSize-only difference of the scaled build",
+		Technique:   "explicit-state model (STREAM automaton) + exhaustive depth-bounded sequence enumeration replayed on the implementation; exhaustive bit-flip/truncation enumeration",
+		Title:       "Tampered, truncated or reordered payload is never accepted",
+		Level:       "model_checking",
+		Rule:        "model = STREAM acceptance automaton over byte streams (refage.OpenStream: state = chunk counter x final-seen x failed). Every chunk sequence up to the depth bound over the chunk-variant alphabet is generated, judged by the automaton and executed on the real stream.Reader (traces_validated_against_impl = sequences x read styles): verdict, released bytes, stickiness and canonical-chunking must agree. Every single-bit flip / truncation length / trailing extension of real files is executed through age.Decrypt. Scaled build (ChunkSize=16, same sources) for depth and exhaustive offsets, real build for the 64 KiB seams. states = distinct automaton end states observed (chunks opened x verdict x reason).",
 		Assumptions: append([]string{"the scaled build differs from the real one only in the value of stream.ChunkSize; STREAM logic depends on lengths only through comparisons with it (the real-size run covers every seam +-17 bytes independently)"}, commonAssume...),
-		Runs: []Run{{Pkg: hp + "c02", Variant: "scaled16", Optional: true}, {Pkg: hp + "c02", Variant: "real"}},
+		Runs:        []Run{{Pkg: hp + "c02", Variant: "scaled16", Optional: true}, {Pkg: hp + "c02", Variant: "real"}},
 	}
 }
 
 func init() {
 	specs["C03"] = &Spec{
-		Title: "Any change to the header invalidates the file before any output",
-		Level: "exploration",
-		LevelText: "For every recipient list in the family (all lists of length <=2 over {X25519 x2, ssh-ed25519, ssh-rsa, unknown-type}, selected (quick) / all (thorough) of length 3, a 5-stanza list, passphrase alone) every single-bit flip of every header byte, every one-byte deletion/duplication/insertion, and every structural edit of the parsed header (field substitutions, stanza deletion/duplication/insertion of grease and attacker-made stanzas at every position, all permutations, MAC replacements) is decrypted with every identity that opens the original; Decrypt must return (nil, error) without consuming payload. Exploration over inputs.",
-		LevelNote: "an attacker who knows the file key (a legitimate co-recipient) can recompute the MAC; such edits are outside the property and not generated. Trusts refage for parsing/re-serialising edited headers.",
-		Technique: "bounded-exhaustive input enumeration (bit flips, byte edits, grammar-level structural edits) on the implementation with an invariant oracle",
-		Rule: "enumerate every edit in the stated families of the header of real files; oracle (invariant): for every identity opening the original, age.Decrypt returns a nil reader and a non-nil error and reads no more than header+4096 bytes. distinct_nontrivial counts distinct tampered headers.",
+		Title:       "Any change to the header invalidates the file before any output",
+		Level:       "exploration",
+		LevelText:   "For every recipient list in the family (all lists of length <=2 over {X25519 x2, ssh-ed25519, ssh-rsa, unknown-type}, selected (quick) / all (thorough) of length 3, a 5-stanza list, passphrase alone) every single-bit flip of every header byte, every one-byte deletion/duplication/insertion, and every structural edit of the parsed header (field substitutions, stanza deletion/duplication/insertion of grease and attacker-made stanzas at every position, all permutations, MAC replacements) is decrypted with every identity that opens the original; Decrypt must return (nil, error) without consuming payload. Exploration over inputs.",
+		LevelNote:   "an attacker who knows the file key (a legitimate co-recipient) can recompute the MAC; such edits are outside the property and not generated. Trusts refage for parsing/re-serialising edited headers.",
+		Technique:   "bounded-exhaustive input enumeration (bit flips, byte edits, grammar-level structural edits) on the implementation with an invariant oracle",
+		Rule:        "enumerate every edit in the stated families of the header of real files; oracle (invariant): for every identity opening the original, age.Decrypt returns a nil reader and a non-nil error and reads no more than header+4096 bytes. distinct_nontrivial counts distinct tampered headers.",
 		Assumptions: commonAssume,
-		Runs: []Run{{Pkg: hp + "c03", Variant: "real"}},
+		Runs:        []Run{{Pkg: hp + "c03", Variant: "real"}},
 	}
 }
 
 func init() {
 	specs["C04"] = &Spec{
-		Title: "Identities that match no recipient never obtain plaintext",
-		Level: "exploration",
-		LevelText: "Every recipient list of the family x armor is decrypted with every list of 1..3 non-matching identities over six identities of all types; every one-bit public-key near-miss of two X25519 keys; a passphrase near-miss family (every substitution/deletion, case, whitespace and line-end padding on either side, Unicode forms); every type-mismatch pair. Oracle: nil reader + error; for native/passphrase identities *NoIdentityMatchError with exactly one ErrIncorrectIdentity cause per identity, each consulted once in order. Exploration over inputs and configurations.",
-		LevelNote: "cryptographic indistinguishability is out of scope: the check establishes that no structural shortcut (normalisation, prefix comparison, early return) lets a non-matching identity through",
-		Technique: "bounded-exhaustive configuration/input enumeration on the implementation with an invariant oracle",
-		Rule: "enumerate (file, identity list) pairs with disjoint keys in the stated families; invariant oracle on age.Decrypt's return values and on the spy log of Unwrap calls. distinct_nontrivial counts distinct (file, identity list) pairs.",
+		Title:       "Identities that match no recipient never obtain plaintext",
+		Level:       "exploration",
+		LevelText:   "Every recipient list of the family x armor is decrypted with every list of 1..3 non-matching identities over six identities of all types; every one-bit public-key near-miss of two X25519 keys; a passphrase near-miss family (every substitution/deletion, case, whitespace and line-end padding on either side, Unicode forms); every type-mismatch pair. Oracle: nil reader + error; for native/passphrase identities *NoIdentityMatchError with exactly one ErrIncorrectIdentity cause per identity, each consulted once in order. Exploration over inputs and configurations.",
+		LevelNote:   "cryptographic indistinguishability is out of scope: the check establishes that no structural shortcut (normalisation, prefix comparison, early return) lets a non-matching identity through",
+		Technique:   "bounded-exhaustive configuration/input enumeration on the implementation with an invariant oracle",
+		Rule:        "enumerate (file, identity list) pairs with disjoint keys in the stated families; invariant oracle on age.Decrypt's return values and on the spy log of Unwrap calls. distinct_nontrivial counts distinct (file, identity list) pairs.",
 		Assumptions: commonAssume,
-		Runs: []Run{{Pkg: hp + "c04", Variant: "real"}},
+		Runs:        []Run{{Pkg: hp + "c04", Variant: "real"}},
 	}
 }
 
 func init() {
 	specs["C05"] = &Spec{
-		Title: "Files are byte-exact age v1 and existing files keep decrypting",
-		Level: "exploration",
-		LevelText: "Differential check against an independent implementation of the age v1 specification: with crypto/rand.Reader replaced by a logging deterministic tape, every output of the real Encrypt over the enumerated (recipient list, size at the 48-byte and 64 KiB seams, armor, tape seed) space is rebuilt byte for byte by the reference encoder from the random values recovered from the tape by value (ssh-rsa bodies are opened instead) and decrypted by the reference decoder; every reference-encoded file over the same space, every file of the frozen corpus and every CCTV vector is decrypted by the real Decrypt with the recorded result.",
-		LevelNote: "trusts the reference implementation (itself validated against all CCTV vectors in the same run, counted as traces) and Go's crypto primitives; the corpus was produced by the pinned tree and cross-checked by the reference decoder before being frozen",
-		Technique: "bounded-exhaustive differential enumeration against an independent reference encoder/decoder under a deterministic CSPRNG tape; frozen corpus replay",
-		Rule: "enumerate (recipient list, plaintext length, armor, tape seed); oracle = byte equality with the reference encoder given the tape values, reference decodability, and recorded plaintext for corpus / CCTV / reference-produced files. distinct_nontrivial counts distinct files compared or decrypted.",
+		Title:       "Files are byte-exact age v1 and existing files keep decrypting",
+		Level:       "exploration",
+		LevelText:   "Differential check against an independent implementation of the age v1 specification: with crypto/rand.Reader replaced by a logging deterministic tape, every output of the real Encrypt over the enumerated (recipient list, size at the 48-byte and 64 KiB seams, armor, tape seed) space is rebuilt byte for byte by the reference encoder from the random values recovered from the tape by value (ssh-rsa bodies are opened instead) and decrypted by the reference decoder; every reference-encoded file over the same space, every file of the frozen corpus and every CCTV vector is decrypted by the real Decrypt with the recorded result.",
+		LevelNote:   "trusts the reference implementation (itself validated against all CCTV vectors in the same run, counted as traces) and Go's crypto primitives; the corpus was produced by the pinned tree and cross-checked by the reference decoder before being frozen",
+		Technique:   "bounded-exhaustive differential enumeration against an independent reference encoder/decoder under a deterministic CSPRNG tape; frozen corpus replay",
+		Rule:        "enumerate (recipient list, plaintext length, armor, tape seed); oracle = byte equality with the reference encoder given the tape values, reference decodability, and recorded plaintext for corpus / CCTV / reference-produced files. distinct_nontrivial counts distinct files compared or decrypted.",
 		Assumptions: commonAssume,
-		Runs: []Run{{Pkg: hp + "c05", Variant: "real"}},
+		Runs:        []Run{{Pkg: hp + "c05", Variant: "real"}},
 	}
 }
 
 func init() {
 	specs["C06"] = &Spec{
-		Title: "Fresh CSPRNG secrets per file; no key and nonce pair is reused",
-		Level: "exploration",
-		LevelText: "All process histories of 1..2 (quick) / 1..3 (thorough) Encrypt calls over 24 recipient lists (including one recipient value used several times within and across calls) x plaintexts run with crypto/rand.Reader replaced by a logging, never-repeating tape. Every secret observable in the outputs (file key via reference unwrap, payload nonce, each ephemeral secret via its public share, scrypt salt) must be exactly one tape draw of its own length, pairwise distinct draws within the whole history; must change with the tape seed and not with the plaintext; every payload chunk must open under (counter i, final only on the last) and under no aliasing nonce (i mod 256, i mod 65536, neighbours, all small counters). Real and scaled build (6- and 258-chunk payloads).",
-		LevelNote: "randomness quality of the OS CSPRNG is out of scope: the check shows where secrets come from and that none is shared, constant or input-derived. math/rand output can never match a tape draw, so a non-CSPRNG source fails the first oracle.",
-		Technique: "bounded-exhaustive enumeration of call histories on the implementation under a deterministic CSPRNG tape, value-tracing oracle",
-		Rule: "enumerate histories of Encrypt calls; oracle traces every secret by value to a distinct tape draw, compares runs under two seeds and two plaintexts, and checks every chunk nonce with the reference AEAD. distinct_nontrivial counts distinct histories.",
+		Title:       "Fresh CSPRNG secrets per file; no key and nonce pair is reused",
+		Level:       "exploration",
+		LevelText:   "All process histories of 1..2 (quick) / 1..3 (thorough) Encrypt calls over 24 recipient lists (including one recipient value used several times within and across calls) x plaintexts run with crypto/rand.Reader replaced by a logging, never-repeating tape. Every secret observable in the outputs (file key via reference unwrap, payload nonce, each ephemeral secret via its public share, scrypt salt) must be exactly one tape draw of its own length, pairwise distinct draws within the whole history; must change with the tape seed and not with the plaintext; every payload chunk must open under (counter i, final only on the last) and under no aliasing nonce (i mod 256, i mod 65536, neighbours, all small counters). Real and scaled build (6- and 258-chunk payloads).",
+		LevelNote:   "randomness quality of the OS CSPRNG is out of scope: the check shows where secrets come from and that none is shared, constant or input-derived. math/rand output can never match a tape draw, so a non-CSPRNG source fails the first oracle.",
+		Technique:   "bounded-exhaustive enumeration of call histories on the implementation under a deterministic CSPRNG tape, value-tracing oracle",
+		Rule:        "enumerate histories of Encrypt calls; oracle traces every secret by value to a distinct tape draw, compares runs under two seeds and two plaintexts, and checks every chunk nonce with the reference AEAD. distinct_nontrivial counts distinct histories.",
 		Assumptions: commonAssume,
-		Runs: []Run{{Pkg: hp + "c06", Variant: "real"}, {Pkg: hp + "c06", Variant: "scaled16", Optional: true}},
+		Runs:        []Run{{Pkg: hp + "c06", Variant: "real"}, {Pkg: hp + "c06", Variant: "scaled16", Optional: true}},
 	}
 }
 
 func init() {
 	specs["C08"] = &Spec{
-		Title: "Armor decodes what it encodes and accepts only canonical armor",
-		Level: "exploration",
-		LevelText: "Encoding: every data length 0..200/400 under every write schedule of the family (no Write at all, nil Writes, every 1- and 2-cut segmentation up to length 100/160, block sizes around the 48-byte line) must produce exactly the canonical armor of the reference encoder and round-trip. Decoding: every text of <= 4/5 lines over a 34-kind line alphabet (BEGIN/END variants, full, short, padded, non-canonical, empty, whitespace, over-long, CR-containing lines, PEM headers, garbage) x LF/CRLF x final newline, outer-whitespace variants around the 1024-byte limits, and every one-byte edit of valid armor, read whole and byte-wise, judged two-sidedly against an independent strict recogniser.",
-		LevelNote: "the whitespace limits (about 1 KiB before BEGIN, less than 1 KiB after END) are taken from the implementation's documented behaviour; trusts refage.Armor/Dearmor (validated on the CCTV armor_* vectors in C05)",
-		Technique: "bounded-exhaustive enumeration of operation sequences (writes) and of inputs (line structures, byte edits) on the implementation, differential against an independent reference",
-		Rule: "encode side: enumerate (data length, write schedule); oracle = byte equality with reference armor + round trip. decode side: enumerate texts; oracle = accepted => normalise(text) == Armor(data) and reference accepts; rejected => *armor.Error, reference rejects, released bytes are a prefix. distinct_nontrivial counts distinct data lengths (encode) and distinct accepted or edited texts (decode).",
+		Title:       "Armor decodes what it encodes and accepts only canonical armor",
+		Level:       "exploration",
+		LevelText:   "Encoding: every data length 0..200/400 under every write schedule of the family (no Write at all, nil Writes, every 1- and 2-cut segmentation up to length 100/160, block sizes around the 48-byte line) must produce exactly the canonical armor of the reference encoder and round-trip. Decoding: every text of <= 4/5 lines over a 34-kind line alphabet (BEGIN/END variants, full, short, padded, non-canonical, empty, whitespace, over-long, CR-containing lines, PEM headers, garbage) x LF/CRLF x final newline, outer-whitespace variants around the 1024-byte limits, and every one-byte edit of valid armor, read whole and byte-wise, judged two-sidedly against an independent strict recogniser.",
+		LevelNote:   "the whitespace limits (about 1 KiB before BEGIN, less than 1 KiB after END) are taken from the implementation's documented behaviour; trusts refage.Armor/Dearmor (validated on the CCTV armor_* vectors in C05)",
+		Technique:   "bounded-exhaustive enumeration of operation sequences (writes) and of inputs (line structures, byte edits) on the implementation, differential against an independent reference",
+		Rule:        "encode side: enumerate (data length, write schedule); oracle = byte equality with reference armor + round trip. decode side: enumerate texts; oracle = accepted => normalise(text) == Armor(data) and reference accepts; rejected => *armor.Error, reference rejects, released bytes are a prefix. distinct_nontrivial counts distinct data lengths (encode) and distinct accepted or edited texts (decode).",
 		Assumptions: commonAssume,
-		Runs: []Run{{Pkg: hp + "c08", Variant: "real"}},
+		Runs:        []Run{{Pkg: hp + "c08", Variant: "real"}},
 	}
 }
 
 func init() {
 	specs["C09"] = &Spec{
-		Title: "Key strings round-trip, are canonical, and typos are rejected",
-		Level: "model_checking",
-		LevelText: "Direct bounded-exhaustive enumeration on the real parsers (ParseX25519Recipient/Identity, plugin.ParseRecipient/ParseIdentity, bech32.Decode), each judged two-sidedly against an independent Bech32 reference: every single substitution by every byte value and ~700 multi-byte runes at every position, every double substitution over the charset (1.59e6 per string), deletion/duplication/case flips, all shaped checksum-valid strings (27 HRPs x payload lengths 0..40 x every padding/surplus variant; data parts shorter than the checksum with the checksum solved into the HRP), all strings up to length 6/7 over an 8-symbol alphabet, plugin name x payload round trips. Distance 3 and 4 are decided on a model: the checksum syndrome is linear, so all 3.9e11 patterns of weight <= 4 are decided by meet-in-the-middle over the 1.6e6 weight-2 syndromes; the model is bound to the code by executing every weight <= 2 (thorough: <= 3) pattern on the real decoder.",
-		LevelNote: "the weight-3/4 claim rests on the linear syndrome model of the reference polymod, validated against the implementation on all weight<=2 patterns (traces_validated_against_impl); substitutions in the HRP change the type and are rejected by the prefix check (covered directly at distance 1-2)",
-		Technique: "explicit model (linear BCH syndrome, meet-in-the-middle enumeration of all weight<=4 error patterns) with conformance replay on the implementation, plus bounded-exhaustive string enumeration against an independent reference decoder",
-		Rule: "states = verdict classes of the syndrome model per weight; transitions = weight-2 syndrome sums enumerated; traces_validated_against_impl = substituted strings executed on the real decoder and compared with the model's verdict",
+		Title:       "Key strings round-trip, are canonical, and typos are rejected",
+		Level:       "model_checking",
+		LevelText:   "Direct bounded-exhaustive enumeration on the real parsers (ParseX25519Recipient/Identity, plugin.ParseRecipient/ParseIdentity, bech32.Decode), each judged two-sidedly against an independent Bech32 reference: every single substitution by every byte value and ~700 multi-byte runes at every position, every double substitution over the charset (1.59e6 per string), deletion/duplication/case flips, all shaped checksum-valid strings (27 HRPs x payload lengths 0..40 x every padding/surplus variant; data parts shorter than the checksum with the checksum solved into the HRP), all strings up to length 6/7 over an 8-symbol alphabet, plugin name x payload round trips. Distance 3 and 4 are decided on a model: the checksum syndrome is linear, so all 3.9e11 patterns of weight <= 4 are decided by meet-in-the-middle over the 1.6e6 weight-2 syndromes; the model is bound to the code by executing every weight <= 2 (thorough: <= 3) pattern on the real decoder.",
+		LevelNote:   "the weight-3/4 claim rests on the linear syndrome model of the reference polymod, validated against the implementation on all weight<=2 patterns (traces_validated_against_impl); substitutions in the HRP change the type and are rejected by the prefix check (covered directly at distance 1-2)",
+		Technique:   "explicit model (linear BCH syndrome, meet-in-the-middle enumeration of all weight<=4 error patterns) with conformance replay on the implementation, plus bounded-exhaustive string enumeration against an independent reference decoder",
+		Rule:        "states = verdict classes of the syndrome model per weight; transitions = weight-2 syndrome sums enumerated; traces_validated_against_impl = substituted strings executed on the real decoder and compared with the model's verdict",
 		Assumptions: commonAssume,
-		Runs: []Run{{Pkg: hp + "c09", Variant: "real"}},
+		Runs:        []Run{{Pkg: hp + "c09", Variant: "real"}},
 	}
 }
 
 func init() {
 	specs["C10"] = &Spec{
-		Title: "Passphrase files stand alone and bound the work they demand",
-		Level: "exploration",
-		LevelText: "Built with x/crypto/scrypt replaced (overlay) by a recording version, so that 'no key was derived' is an observable fact and a 2^30 work factor costs nothing. Enumerated completely: every recipient list of length 1..3/4 over 7 recipient kinds containing a passphrase recipient (Encrypt must succeed iff it is alone, zero bytes written otherwise); every header of 1..4/5 stanzas with a correct scrypt stanza at every position among 5 kinds of other stanzas; every (configured maximum 1..30 and default) x (work factor 1..31, 21 malformed spellings, 11 overflowing decimals congruent to small values) pair with the stanza sealed for the value a lenient parser would read, via Unwrap and via whole files.",
-		LevelNote: "the recorder computes the real scrypt for N <= 2^12 and a consistent stand-in above; cmd/age's LazyScryptIdentity / EncryptedIdentity are exercised in C18/C15 through the CLI",
-		Technique: "bounded-exhaustive configuration/input enumeration on the implementation with an instrumented (recording) KDF and an invariant oracle",
-		Rule: "enumerate recipient lists, stanza arrangements and (maximum, work-factor spelling) pairs; oracle on Encrypt/Unwrap/Decrypt results, bytes written and the log of scrypt.Key calls. distinct_nontrivial counts distinct configurations.",
+		Title:       "Passphrase files stand alone and bound the work they demand",
+		Level:       "exploration",
+		LevelText:   "Built with x/crypto/scrypt replaced (overlay) by a recording version, so that 'no key was derived' is an observable fact and a 2^30 work factor costs nothing. Enumerated completely: every recipient list of length 1..3/4 over 7 recipient kinds containing a passphrase recipient (Encrypt must succeed iff it is alone, zero bytes written otherwise); every header of 1..4/5 stanzas with a correct scrypt stanza at every position among 5 kinds of other stanzas; every (configured maximum 1..30 and default) x (work factor 1..31, 21 malformed spellings, 11 overflowing decimals congruent to small values) pair with the stanza sealed for the value a lenient parser would read, via Unwrap and via whole files.",
+		LevelNote:   "the recorder computes the real scrypt for N <= 2^12 and a consistent stand-in above; cmd/age's LazyScryptIdentity / EncryptedIdentity are exercised in C18/C15 through the CLI",
+		Technique:   "bounded-exhaustive configuration/input enumeration on the implementation with an instrumented (recording) KDF and an invariant oracle",
+		Rule:        "enumerate recipient lists, stanza arrangements and (maximum, work-factor spelling) pairs; oracle on Encrypt/Unwrap/Decrypt results, bytes written and the log of scrypt.Key calls. distinct_nontrivial counts distinct configurations.",
 		Assumptions: commonAssume,
-		Runs: []Run{{Pkg: hp + "c10", Variant: "scryptrec"}},
+		Runs:        []Run{{Pkg: hp + "c10", Variant: "scryptrec"}},
 	}
 }
 
 func init() {
 	specs["C11"] = &Spec{
-		Title: "Recipients with different label sets cannot share a file",
-		Level: "exploration",
-		LevelText: "Every list of 1..4/5 recipients over 16 label declarations (method absent, nil, empty, {a}, {b}, {a,b} and {a,b,c} in several orders, case/whitespace variants, recipients failing to wrap with and without labels) is passed to the real Encrypt with a counting destination: it must succeed exactly when all declared sets are equal as sets (absent = nil = empty) and nobody fails, not a single Write may reach the destination on refusal, and every accepted file must decrypt for every recipient. The real plugin recipient's labels path is covered by C16.",
-		LevelNote: "label lists with repeated labels denote no set and are outside the alphabet (DESIGN.md §5)",
-		Technique: "bounded-exhaustive configuration enumeration on the implementation with a set-equality reference oracle",
-		Rule: "enumerate lists of label declarations; oracle: success iff set-equal and no failure; zero bytes / zero Write calls on refusal; decryptability on success. distinct_nontrivial counts distinct lists.",
+		Title:       "Recipients with different label sets cannot share a file",
+		Level:       "exploration",
+		LevelText:   "Every list of 1..4/5 recipients over 16 label declarations (method absent, nil, empty, {a}, {b}, {a,b} and {a,b,c} in several orders, case/whitespace variants, recipients failing to wrap with and without labels) is passed to the real Encrypt with a counting destination: it must succeed exactly when all declared sets are equal as sets (absent = nil = empty) and nobody fails, not a single Write may reach the destination on refusal, and every accepted file must decrypt for every recipient. The real plugin recipient's labels path is covered by C16.",
+		LevelNote:   "label lists with repeated labels denote no set and are outside the alphabet (DESIGN.md §5)",
+		Technique:   "bounded-exhaustive configuration enumeration on the implementation with a set-equality reference oracle",
+		Rule:        "enumerate lists of label declarations; oracle: success iff set-equal and no failure; zero bytes / zero Write calls on refusal; decryptability on success. distinct_nontrivial counts distinct lists.",
 		Assumptions: commonAssume,
-		Runs: []Run{{Pkg: hp + "c11", Variant: "real"}},
+		Runs:        []Run{{Pkg: hp + "c11", Variant: "real"}},
 	}
 }
 
 func init() {
 	specs["C12"] = &Spec{
-		Title: "Results do not depend on I/O chunking; processing is streaming",
-		Level: "exploration",
-		LevelText: "Stateless exploration of I/O schedules with the choice-point explorer: every sequence of Write sizes (all compositions on a ChunkSize=4 build of the same sources; every schedule within 2/3 deviations from a menu of seam-relative sizes on ChunkSize=16 and real builds) must give byte-identical output under a fixed CSPRNG tape, full Write counts and at most one chunk held back; every source delivery schedule within 2/3 deviations (1 byte, up to / just past each seam, data together with EOF) x 13 consumers (read sizes around the chunk size, bufio of three sizes incl. the Parse shortcut, one-byte/half/data+EOF readers) x valid and 19 kinds of damaged files must give the same plaintext and the same error text as all-at-once delivery, with at most one chunk of read-ahead.",
-		LevelNote: "zero-length (0, nil) source reads are not in the alphabet (io.Reader discourages them; the EOF probe in stream.Reader would misreport them) — noted, not claimed",
-		Technique: "stateless deviation-bounded exploration of environment answers (I/O schedules) on the implementation, differential against the default schedule",
-		Rule: "executions = schedules explored; transitions = choice points passed; distinct_nontrivial = distinct schedules (each execution is a different choice vector); oracle = equality with the default-schedule observation, Write return values, hold-back and read-ahead bounds.",
+		Title:       "Results do not depend on I/O chunking; processing is streaming",
+		Level:       "exploration",
+		LevelText:   "Stateless exploration of I/O schedules with the choice-point explorer: every sequence of Write sizes (all compositions on a ChunkSize=4 build of the same sources; every schedule within 2/3 deviations from a menu of seam-relative sizes on ChunkSize=16 and real builds) must give byte-identical output under a fixed CSPRNG tape, full Write counts and at most one chunk held back; every source delivery schedule within 2/3 deviations (1 byte, up to / just past each seam, data together with EOF) x 13 consumers (read sizes around the chunk size, bufio of three sizes incl. the Parse shortcut, one-byte/half/data+EOF readers) x valid and 19 kinds of damaged files must give the same plaintext and the same error text as all-at-once delivery, with at most one chunk of read-ahead.",
+		LevelNote:   "zero-length (0, nil) source reads are not in the alphabet (io.Reader discourages them; the EOF probe in stream.Reader would misreport them) — noted, not claimed",
+		Technique:   "stateless deviation-bounded exploration of environment answers (I/O schedules) on the implementation, differential against the default schedule",
+		Rule:        "executions = schedules explored; transitions = choice points passed; distinct_nontrivial = distinct schedules (each execution is a different choice vector); oracle = equality with the default-schedule observation, Write return values, hold-back and read-ahead bounds.",
 		Assumptions: commonAssume,
-		Runs: []Run{{Pkg: hp + "c12", Variant: "scaled4", Optional: true}, {Pkg: hp + "c12", Variant: "scaled16", Optional: true}, {Pkg: hp + "c12", Variant: "real"}},
+		Runs:        []Run{{Pkg: hp + "c12", Variant: "scaled4", Optional: true}, {Pkg: hp + "c12", Variant: "scaled16", Optional: true}, {Pkg: hp + "c12", Variant: "real"}},
 	}
 }
 
 func init() {
 	specs["C13"] = &Spec{
-		Title: "I/O failures surface; nothing is lost silently",
-		Level: "fault_enumeration",
-		LevelText: "Destination: for every (plaintext length at the chunk seams / every length on the scaled build, armor, 1-2 recipients, write split, caller model) the explorer injects a failure at every destination Write call index (permanent or once, returning 0 or a partial count; pairs of faults on the thorough tier); whenever Encrypt, Write and Close all report success the accepted bytes must be a complete file that the reference decoder and the real Decrypt open. Source: a failure at every byte offset of small files and every seam +-2 / stride of large ones (permanent or once, alone or with data, three error values) x three read sizes must surface as a non-EOF error, release only a prefix, and the failed stream must keep failing; damaged armored inputs are read on after their first error.",
-		LevelNote: "faults are injected at the io.Reader / io.Writer seam the library is given (every fault the property talks about enters there); a transient io.ErrUnexpectedEOF is excluded as indistinguishable from a short final chunk",
-		Technique: "exhaustive fault-point enumeration on the implementation (controlled fault injector at every write call index / source offset, deviation-bounded for fault pairs) with a reference decoder oracle",
-		Rule: "enumerate fault positions and kinds; oracle: no silent loss (all-success => valid complete file; source fault => non-EOF error), released bytes are a prefix, stickiness, no panic. distinct_nontrivial counts distinct fault schedules / fault positions.",
+		Title:       "I/O failures surface; nothing is lost silently",
+		Level:       "fault_enumeration",
+		LevelText:   "Destination: for every (plaintext length at the chunk seams / every length on the scaled build, armor, 1-2 recipients, write split, caller model) the explorer injects a failure at every destination Write call index (permanent or once, returning 0 or a partial count; pairs of faults on the thorough tier); whenever Encrypt, Write and Close all report success the accepted bytes must be a complete file that the reference decoder and the real Decrypt open. Source: a failure at every byte offset of small files and every seam +-2 / stride of large ones (permanent or once, alone or with data, three error values) x three read sizes must surface as a non-EOF error, release only a prefix, and the failed stream must keep failing; damaged armored inputs are read on after their first error.",
+		LevelNote:   "faults are injected at the io.Reader / io.Writer seam the library is given (every fault the property talks about enters there); a transient io.ErrUnexpectedEOF is excluded as indistinguishable from a short final chunk",
+		Technique:   "exhaustive fault-point enumeration on the implementation (controlled fault injector at every write call index / source offset, deviation-bounded for fault pairs) with a reference decoder oracle",
+		Rule:        "enumerate fault positions and kinds; oracle: no silent loss (all-success => valid complete file; source fault => non-EOF error), released bytes are a prefix, stickiness, no panic. distinct_nontrivial counts distinct fault schedules / fault positions.",
 		Assumptions: commonAssume,
-		Runs: []Run{{Pkg: hp + "c13", Variant: "scaled16", Optional: true}, {Pkg: hp + "c13", Variant: "real"}},
+		Runs:        []Run{{Pkg: hp + "c13", Variant: "scaled16", Optional: true}, {Pkg: hp + "c13", Variant: "real"}},
 	}
 }
 
 func init() {
 	specs["C19"] = &Spec{
-		Title: "Encrypted SSH identity prompts only on a match and keeps no history",
-		Level: "model_checking",
-		LevelText: "Reference model: one bit per identity value (a successfully validated key is remembered). For four identity values (Ed25519 OpenSSH-encrypted and RSA legacy-PEM-encrypted, each with a key file that does / does not belong to the declared public key) every history of <= 3/4 Unwrap calls over 9 stanza lists (addressed to the declared key, to the stored key, same type with another tag, other types only, the matching stanza at each position among others, a malformed stanza of the type, empty) x passphrase answer {right, wrong, callback error} is executed on one real identity value; at every step the number of callback invocations must equal the model's and the result must equal the result of the same call on a fresh identity value.",
-		LevelNote: "histories are driven through Identity.Unwrap (what age.Decrypt calls); the encrypted OpenSSH fixtures use bcrypt rounds = 1 (accepted unmodified by the parser) to keep a prompt at 10 ms",
-		Technique: "explicit-state reference model (remembered bit) with exhaustive depth-bounded enumeration of call histories replayed on the implementation; differential against fresh instances",
-		Rule: "states = (identity kind, remembered) pairs visited; transitions = calls executed; traces_validated_against_impl = histories executed on the real identity value and compared step by step",
+		Title:       "Encrypted SSH identity prompts only on a match and keeps no history",
+		Level:       "model_checking",
+		LevelText:   "Reference model: one bit per identity value (a successfully validated key is remembered). For four identity values (Ed25519 OpenSSH-encrypted and RSA legacy-PEM-encrypted, each with a key file that does / does not belong to the declared public key) every history of <= 3/4 Unwrap calls over 9 stanza lists (addressed to the declared key, to the stored key, same type with another tag, other types only, the matching stanza at each position among others, a malformed stanza of the type, empty) x passphrase answer {right, wrong, callback error} is executed on one real identity value; at every step the number of callback invocations must equal the model's and the result must equal the result of the same call on a fresh identity value.",
+		LevelNote:   "histories are driven through Identity.Unwrap (what age.Decrypt calls); the encrypted OpenSSH fixtures use bcrypt rounds = 1 (accepted unmodified by the parser) to keep a prompt at 10 ms",
+		Technique:   "explicit-state reference model (remembered bit) with exhaustive depth-bounded enumeration of call histories replayed on the implementation; differential against fresh instances",
+		Rule:        "states = (identity kind, remembered) pairs visited; transitions = calls executed; traces_validated_against_impl = histories executed on the real identity value and compared step by step",
 		Assumptions: commonAssume,
-		Runs: []Run{{Pkg: hp + "c19", Variant: "real"}},
+		Runs:        []Run{{Pkg: hp + "c19", Variant: "real"}},
 	}
 }
 
 func init() {
 	specs["C18"] = &Spec{
-		Title: "Key files: every line counts or the whole file is rejected",
-		Level: "exploration",
-		LevelText: "Every file of <= 4/5 lines over a 21-kind line alphabet (valid keys, comments, blank/CR/space lines, keys with added whitespace, substituted, truncated, wrong-case and mixed-case keys, keys of the other kind, two keys on a line, garbage, trailing comments, NUL, BOM) x LF/CRLF x final newline is parsed by age.ParseIdentities and age.ParseRecipients and, through a hook file added to package main of cmd/age at build time, by the CLI's parseIdentities / parseRecipientsFile with plugin and SSH lines added (valid, unsupported-but-valid and malformed SSH keys); a reference parser gives the expected keys in order or the number of the first offending line; error texts are searched for every 8-character window of key material.",
-		LevelNote: "the CLI part needs cmd/age's unexported parser functions; if the hook does not compile on an edited tree that run is skipped (noted in evidence) and the library part alone decides",
-		Technique: "bounded-exhaustive input enumeration (line sequences) on the implementation, differential against a reference key-file parser",
-		Rule: "enumerate files as line sequences; oracle: exactly one key per non-blank non-comment line in order, or an error naming the first offending line; never keys with an error; no 8-character window of key material in error text. distinct_nontrivial counts distinct accepted files.",
+		Title:       "Key files: every line counts or the whole file is rejected",
+		Level:       "exploration",
+		LevelText:   "Every file of <= 4/5 lines over a 21-kind line alphabet (valid keys, comments, blank/CR/space lines, keys with added whitespace, substituted, truncated, wrong-case and mixed-case keys, keys of the other kind, two keys on a line, garbage, trailing comments, NUL, BOM) x LF/CRLF x final newline is parsed by age.ParseIdentities and age.ParseRecipients and, through a hook file added to package main of cmd/age at build time, by the CLI's parseIdentities / parseRecipientsFile with plugin and SSH lines added (valid, unsupported-but-valid and malformed SSH keys); a reference parser gives the expected keys in order or the number of the first offending line; error texts are searched for every 8-character window of key material.",
+		LevelNote:   "the CLI part needs cmd/age's unexported parser functions; if the hook does not compile on an edited tree that run is skipped (noted in evidence) and the library part alone decides",
+		Technique:   "bounded-exhaustive input enumeration (line sequences) on the implementation, differential against a reference key-file parser",
+		Rule:        "enumerate files as line sequences; oracle: exactly one key per non-blank non-comment line in order, or an error naming the first offending line; never keys with an error; no 8-character window of key material in error text. distinct_nontrivial counts distinct accepted files.",
 		Assumptions: commonAssume,
-		Runs: []Run{{Pkg: hp + "c18", Variant: "real"}, {Pkg: "cmd/age", Variant: "mainhook", Optional: true, Env: []string{"VERIF_HARNESS=c18cli", "VERIF_PROPERTY=C18"}}},
+		Runs:        []Run{{Pkg: hp + "c18", Variant: "real"}, {Pkg: "cmd/age", Variant: "mainhook", Optional: true, Env: []string{"VERIF_HARNESS=c18cli", "VERIF_PROPERTY=C18"}}},
 	}
 }
 
 func init() {
 	specs["C16"] = &Spec{
-		Title: "Plugin client follows the protocol for every plugin behaviour",
-		Level: "model_checking",
-		LevelText: "Reference model of the recipient-v1 and identity-v1 client state machines (pure functions from UI capabilities and plugin messages to the expected replies and final result). Every conversation of <= 3/4 plugin messages over 27 message kinds (each command valid and in malformed variants, commands of the other machine, unknown commands, grease, five framing errors, done; end of stream after every prefix and before phase 1) is executed against the real plugin.Recipient / plugin.Identity (and Identity.Recipient()) talking to a scripted plugin process over real pipes; conversations with UI commands are run under every answer of that callback. The transcript recorded by the plugin must be a well-formed, complete phase 1 followed by exactly the model's replies, and the Go result must be the model's.",
-		LevelNote: "a plugin that keeps its pipes open and stays silent is out of scope (the property speaks of a plugin that stops); a 60 s watchdog per conversation only guards the harness",
-		Technique: "explicit-state protocol model with exhaustive depth-bounded enumeration of conversations, every model trace replayed against the implementation over real sub-process pipes",
-		Rule: "states = terminal model states reached per machine; transitions = plugin messages delivered; traces_validated_against_impl = conversations executed against the real client and compared reply by reply",
+		Title:       "Plugin client follows the protocol for every plugin behaviour",
+		Level:       "model_checking",
+		LevelText:   "Reference model of the recipient-v1 and identity-v1 client state machines (pure functions from UI capabilities and plugin messages to the expected replies and final result). Every conversation of <= 3/4 plugin messages over 27 message kinds (each command valid and in malformed variants, commands of the other machine, unknown commands, grease, five framing errors, done; end of stream after every prefix and before phase 1) is executed against the real plugin.Recipient / plugin.Identity (and Identity.Recipient()) talking to a scripted plugin process over real pipes; conversations with UI commands are run under every answer of that callback. The transcript recorded by the plugin must be a well-formed, complete phase 1 followed by exactly the model's replies, and the Go result must be the model's.",
+		LevelNote:   "a plugin that keeps its pipes open and stays silent is out of scope (the property speaks of a plugin that stops); a 60 s watchdog per conversation only guards the harness",
+		Technique:   "explicit-state protocol model with exhaustive depth-bounded enumeration of conversations, every model trace replayed against the implementation over real sub-process pipes",
+		Rule:        "states = terminal model states reached per machine; transitions = plugin messages delivered; traces_validated_against_impl = conversations executed against the real client and compared reply by reply",
 		Assumptions: commonAssume,
-		Runs: []Run{{Pkg: hp + "c16", Variant: "real", NeedBins: []NeedBin{{Env: "VERIF_PLUGINSIM", Variant: "real", Pkg: "internal/zzverif/pluginsim"}}}},
+		Runs:        []Run{{Pkg: hp + "c16", Variant: "real", NeedBins: []NeedBin{{Env: "VERIF_PLUGINSIM", Variant: "real", Pkg: "internal/zzverif/pluginsim"}}}},
 	}
 }
 
 func init() {
 	specs["C17"] = &Spec{
-		Title: "Only validly named plugins on PATH are ever executed",
-		Level: "exploration",
-		LevelText: "About 750 (quick) / 9800 (thorough) plugin names - every string of length 1..2/3 over 21 characters incl. path separators and shell metacharacters, every printable ASCII character alone and next to a letter, path-like, very long, NUL, non-ASCII names - are placed in recipient-string, identity-string (checksum-valid, so that the name check decides) and bare-name positions of the library constructors, and 245 names in the -r, -R, -i, -e -j and -d -j positions of the real cmd/age binary. A recording executable is installed for every name (and every path an invalid name could resolve to) under a private PATH, the working directory and TMPDIR; construction must succeed exactly for names in [A-Za-z0-9+._-]+, start nothing, and Wrap/Unwrap of accepted names must start exactly PATH/age-plugin-NAME. Headers naming installed plugins as stanza types start nothing.",
-		LevelNote: "observation of 'which executables ran' is by the executables themselves (every start is appended to a log); an executable outside the installed set would not be observed, which is why traps are placed at every location a separator-containing name resolves to",
-		Technique: "bounded-exhaustive input enumeration on the implementation and the real CLI binary with a sentinel PATH oracle",
-		Rule: "enumerate names x positions; oracle: constructor result iff the name is in the allow-list; the exec log lists exactly the expected executable. distinct_nontrivial counts distinct names (library) and (name, CLI position) pairs.",
+		Title:       "Only validly named plugins on PATH are ever executed",
+		Level:       "exploration",
+		LevelText:   "About 750 (quick) / 9800 (thorough) plugin names - every string of length 1..2/3 over 21 characters incl. path separators and shell metacharacters, every printable ASCII character alone and next to a letter, path-like, very long, NUL, non-ASCII names - are placed in recipient-string, identity-string (checksum-valid, so that the name check decides) and bare-name positions of the library constructors, and 245 names in the -r, -R, -i, -e -j and -d -j positions of the real cmd/age binary. A recording executable is installed for every name (and every path an invalid name could resolve to) under a private PATH, the working directory and TMPDIR; construction must succeed exactly for names in [A-Za-z0-9+._-]+, start nothing, and Wrap/Unwrap of accepted names must start exactly PATH/age-plugin-NAME. Headers naming installed plugins as stanza types start nothing.",
+		LevelNote:   "observation of 'which executables ran' is by the executables themselves (every start is appended to a log); an executable outside the installed set would not be observed, which is why traps are placed at every location a separator-containing name resolves to",
+		Technique:   "bounded-exhaustive input enumeration on the implementation and the real CLI binary with a sentinel PATH oracle",
+		Rule:        "enumerate names x positions; oracle: constructor result iff the name is in the allow-list; the exec log lists exactly the expected executable. distinct_nontrivial counts distinct names (library) and (name, CLI position) pairs.",
 		Assumptions: commonAssume,
-		Runs: []Run{{Pkg: hp + "c17", Variant: "real", NeedBins: []NeedBin{{Env: "VERIF_PLUGINSIM", Variant: "real", Pkg: "internal/zzverif/pluginsim"}, {Env: "VERIF_AGE_BIN", Variant: "real", Pkg: "cmd/age"}}}},
+		Runs:        []Run{{Pkg: hp + "c17", Variant: "real", NeedBins: []NeedBin{{Env: "VERIF_PLUGINSIM", Variant: "real", Pkg: "internal/zzverif/pluginsim"}, {Env: "VERIF_AGE_BIN", Variant: "real", Pkg: "cmd/age"}}}},
 	}
 }
 
 func init() {
 	specs["C15"] = &Spec{
-		Title: "CLI: exit status 0 if and only if the whole result was delivered",
-		Level: "fault_enumeration",
-		LevelText: "The real cmd/age and cmd/age-keygen binaries, built from the working tree, are run as processes: every scenario of the synopsis family (encrypt with -r x25519/ssh-ed25519/ssh-rsa, -R, -e -i, two recipients, -p under a pty; decrypt with x25519 / SSH key files, passphrase and encrypted identity file under a pty) x armor x sizes {0, 1, 64 KiB+1 (, 128 KiB+1)} x input {file, stdin} x output {stdout, new file, existing file} must exit 0 with a verified result; each is then re-run with the output file limited (RLIMIT_FSIZE) to every byte count 0..size (small outputs; header, chunk seams, stride and tail for large ones), with stdout on /dev/full, and with -o in a nonexistent directory or below a regular file, and must exit non-zero exactly when the result was not completely delivered. Header-level refusals must leave the -o target absent or byte- and mtime-identical, payload failures a prefix; -o naming the input, an identity file or a recipients file under 7 path spellings must be refused; age-keygen: three-line output, matching keys, mode 0600, no overwrite, every size limit.",
-		LevelNote: "RLIMIT_FSIZE (prlimit) is a deterministic, byte-exact 'disk full at offset N' for regular files (the Go runtime ignores SIGXFSZ, the write fails with EFBIG); faults on close()/fsync and terminal destinations are not injected; symlinks and hard links are not 'spellings'",
-		Technique: "exhaustive fault-point enumeration (every output byte offset, unwritable destinations) and configuration enumeration on the real binaries as sub-processes, with a reference-decoder oracle",
-		Rule: "enumerate (scenario, output mode, fault); oracle: exit 0 iff no fault fired and the result verifies; file-system state after refusals. distinct_nontrivial counts distinct (scenario, fault) process runs.",
+		Title:       "CLI: exit status 0 if and only if the whole result was delivered",
+		Level:       "fault_enumeration",
+		LevelText:   "The real cmd/age and cmd/age-keygen binaries, built from the working tree, are run as processes: every scenario of the synopsis family (encrypt with -r x25519/ssh-ed25519/ssh-rsa, -R, -e -i, two recipients, -p under a pty; decrypt with x25519 / SSH key files, passphrase and encrypted identity file under a pty) x armor x sizes {0, 1, 64 KiB+1 (, 128 KiB+1)} x input {file, stdin} x output {stdout, new file, existing file} must exit 0 with a verified result; each is then re-run with the output file limited (RLIMIT_FSIZE) to every byte count 0..size (small outputs; header, chunk seams, stride and tail for large ones), with stdout on /dev/full, and with -o in a nonexistent directory or below a regular file, and must exit non-zero exactly when the result was not completely delivered. Header-level refusals must leave the -o target absent or byte- and mtime-identical, payload failures a prefix; -o naming the input, an identity file or a recipients file under 7 path spellings must be refused; age-keygen: three-line output, matching keys, mode 0600, no overwrite, every size limit.",
+		LevelNote:   "RLIMIT_FSIZE (prlimit) is a deterministic, byte-exact 'disk full at offset N' for regular files (the Go runtime ignores SIGXFSZ, the write fails with EFBIG); faults on close()/fsync and terminal destinations are not injected; symlinks and hard links are not 'spellings'",
+		Technique:   "exhaustive fault-point enumeration (every output byte offset, unwritable destinations) and configuration enumeration on the real binaries as sub-processes, with a reference-decoder oracle",
+		Rule:        "enumerate (scenario, output mode, fault); oracle: exit 0 iff no fault fired and the result verifies; file-system state after refusals. distinct_nontrivial counts distinct (scenario, fault) process runs.",
 		Assumptions: commonAssume,
-		Runs: []Run{{Pkg: hp + "c15", Variant: "real", NeedBins: []NeedBin{{Env: "VERIF_AGE_BIN", Variant: "real", Pkg: "cmd/age"}, {Env: "VERIF_KEYGEN_BIN", Variant: "real", Pkg: "cmd/age-keygen"}}}},
+		Runs:        []Run{{Pkg: hp + "c15", Variant: "real", NeedBins: []NeedBin{{Env: "VERIF_AGE_BIN", Variant: "real", Pkg: "cmd/age"}, {Env: "VERIF_KEYGEN_BIN", Variant: "real", Pkg: "cmd/age-keygen"}}}},
 	}
 }
 
 func init() {
 	specs["C20"] = &Spec{
-		Title: "Shared recipients and identities are safe under concurrency",
-		Level: "model_checking",
-		LevelText: "Stateless schedule exploration on the implementation: the age library packages are rebuilt from instrumented copies of the working tree (a scheduling point before every statement, ~800 sites; `go` and sync rewritten to a cooperative shim), and for every key type (X25519, scrypt, ssh-ed25519, ssh-rsa) and thread set (Enc||Enc, Enc||Dec, Dec||Dec; three-thread multisets on the thorough tier) sharing one recipient and one identity value, every schedule with <= 2/3 preemptions is executed under per-thread CSPRNG tapes. Each thread's result must equal its solo result (byte-identical files; RSA: decrypts identically), every ciphertext must decrypt with an unshared identity, nothing may panic or overrun, and the shared values must still work afterwards. A deep hash of the shared values and of every package-level variable is compared after every execution (independence note). A separate free-running build of the same operations under the race detector reports unsynchronised accesses the cooperative hand-offs would hide.",
-		LevelNote: "interleavings are explored at statement granularity of the age packages under sequential consistency; the standard library and x/crypto are atomic steps; sub-statement and memory-model effects are left to the auxiliary -race pass, which observes executions rather than enumerating them",
-		Technique: "stateless model checking of the implementation: exhaustive preemption-bounded schedule enumeration under a controlled cooperative scheduler over auto-instrumented sources; auxiliary free-running race-detector pass",
-		Rule: "states = scenarios x independence verdict; transitions = scheduling points passed; traces_validated_against_impl = schedules executed on the real (instrumented) code; oracle = equality with the solo result of each thread under the same per-thread tape",
+		Title:       "Shared recipients and identities are safe under concurrency",
+		Level:       "model_checking",
+		LevelText:   "Stateless schedule exploration on the implementation: the age library packages are rebuilt from instrumented copies of the working tree (a scheduling point before every statement, ~800 sites; `go` and sync rewritten to a cooperative shim), and for every key type (X25519, scrypt, ssh-ed25519, ssh-rsa) and thread set (Enc||Enc, Enc||Dec, Dec||Dec; three-thread multisets on the thorough tier) sharing one recipient and one identity value, every schedule with <= 2/3 preemptions is executed under per-thread CSPRNG tapes. Each thread's result must equal its solo result (byte-identical files; RSA: decrypts identically), every ciphertext must decrypt with an unshared identity, nothing may panic or overrun, and the shared values must still work afterwards. A deep hash of the shared values and of every package-level variable is compared after every execution (independence note). A separate free-running build of the same operations under the race detector reports unsynchronised accesses the cooperative hand-offs would hide.",
+		LevelNote:   "interleavings are explored at statement granularity of the age packages under sequential consistency; the standard library and x/crypto are atomic steps; sub-statement and memory-model effects are left to the auxiliary -race pass, which observes executions rather than enumerating them",
+		Technique:   "stateless model checking of the implementation: exhaustive preemption-bounded schedule enumeration under a controlled cooperative scheduler over auto-instrumented sources; auxiliary free-running race-detector pass",
+		Rule:        "states = scenarios x independence verdict; transitions = scheduling points passed; traces_validated_against_impl = schedules executed on the real (instrumented) code; oracle = equality with the solo result of each thread under the same per-thread tape",
 		Assumptions: commonAssume,
-		Runs: []Run{{Pkg: hp + "c20", Variant: "instr", Procs: 4}, {Pkg: hp + "c20race", Variant: "real", Race: true, Shards: 3, Procs: 16, Optional: true}},
+		Runs:        []Run{{Pkg: hp + "c20", Variant: "instr", Procs: 4}, {Pkg: hp + "c20race", Variant: "real", Race: true, Shards: 3, Procs: 16, Optional: true}},
+	}
+}
+
+func init() {
+	specs["C14"] = &Spec{
+		Title:       "Hostile input produces errors, never panics or hangs",
+		Level:       "exploration",
+		LevelText:   "Bounded-exhaustive statement (enumeration, not fuzzing): no input in the following finite families panics, spins, reads on after EOF, exceeds its read budget or derives a key above the configured work maximum, and every entry point returns a value xor an error. Families: every truncation, deletion, duplication and substitution/insertion from 13 byte values at every position (first 1300 / last 120 bytes) of all 114 CCTV vectors and 8 generated files of every recipient type, binary and armored, through age.Decrypt over a counting source with a recording scrypt; the same edits of SSH public key lines and four kinds of SSH private key files incl. passphrase-protected ones; Identity.Unwrap of six identity types called directly with every stanza of a 3400-stanza shape family and pairs; one-byte edits and degenerate checksum-valid shapes of key strings through all parsers and plugin constructors; edits of key files and of plugin protocol messages through StanzaReader. Invalid armor must surface as *armor.Error unless the identical failure occurs on the de-armored prefix.",
+		LevelNote:   "coverage-guided fuzzing (the property's quantifier) is sampling and belongs to another technique family; what is decided is the bounded statement over the stated families. The deeper structured families of C07, C08, C09 and C16 also assert the absence of panics.",
+		Technique:   "bounded-exhaustive mutation enumeration on the implementation with invariant oracles (no panic, value xor error, read budget, work bound, error type)",
+		Rule:        "enumerate every edit in the stated families; invariant oracles per entry point; distinct_nontrivial counts distinct mutated inputs.",
+		Assumptions: commonAssume,
+		Runs:        []Run{{Pkg: hp + "c14", Variant: "scryptrec"}},
 	}
 }
